@@ -21,17 +21,18 @@ Match(e, r) == \A f \in DOMAIN e : f \in DOMAIN r /\ e[f] = r[f]
 (* ---------------- comparing / loading a logged disk state ------------------- *)
 StampsOf(F) == {F[k].m : k \in DOMAIN F}
 RankIn(S, m) == IF m = 0 THEN 0 ELSE 1 + Cardinality({s \in S : s < m})
-FilesMatch(S0, F, S) == /\ DOMAIN F = DOMAIN S
-                        /\ \A k \in DOMAIN F : F[k].c = S[k].c /\ F[k].x = S[k].x /\ RankIn(S0, F[k].m) = S[k].m
+FilesMatch(S0, S1, F, S) == /\ DOMAIN F = DOMAIN S
+                            /\ \A k \in DOMAIN F : F[k].c = S[k].c /\ F[k].x = S[k].x /\ RankIn(S0, F[k].m) = RankIn(S1, S[k].m)
 \* W, C, H, T, D: workspace, cache, histories, table, ruler directory (passed explicitly so that primed values can be compared)
 SM(W, C, H, T, D, s) ==
-  LET S0 == (StampsOf(W) \cup StampsOf(C) \cup StampsOf(T)) \ {0} IN
-  /\ FilesMatch(S0, W, s.ws)
-  /\ FilesMatch(S0, C, s.cache)
+  LET S0 == (StampsOf(W) \cup StampsOf(C) \cup StampsOf(T)) \ {0}      \* stamps are compared by rank: only their order matters
+      S1 == (StampsOf(s.ws) \cup StampsOf(s.cache) \cup StampsOf(s.fstab)) \ {0} IN
+  /\ FilesMatch(S0, S1, W, s.ws)
+  /\ FilesMatch(S0, S1, C, s.cache)
   /\ DOMAIN H = DOMAIN s.hist
   /\ \A rid \in DOMAIN H : DOMAIN H[rid] = DOMAIN s.hist[rid] /\ \A sh \in DOMAIN H[rid] : H[rid][sh] = s.hist[rid][sh]
   /\ DOMAIN T = DOMAIN s.fstab
-  /\ \A p \in DOMAIN T : T[p].h = s.fstab[p].h /\ T[p].x = s.fstab[p].x /\ RankIn(S0, T[p].m) = s.fstab[p].m
+  /\ \A p \in DOMAIN T : T[p].h = s.fstab[p].h /\ T[p].x = s.fstab[p].x /\ RankIn(S0, T[p].m) = RankIn(S1, s.fstab[p].m)
   /\ D.root = s.rdir.root /\ D.cache = s.rdir.cache /\ D.hist = s.rdir.hist /\ D.tab = s.rdir.tab
   /\ D.htorn = SeqSet(s.rdir.htorn)
 
@@ -63,6 +64,10 @@ TCrash ==     \* the steps between the start and the kill are not replayed: the 
   /\ ev' = [a |-> "crash", inexec |-> E.inexec]
   /\ g' = Fold(g, ev', ws', cache', hist', fstab', {})
 
+\* the state an invocation starts from is logged too (crash scenarios omit it)
+PreMatch == IF Has(E, "state") /\ ~SM(ws, cache, hist, fstab, rdir, E.state)
+            THEN PrintT(<<"STATE-MISMATCH", scn, l, [ws |-> ws, cache |-> cache, hist |-> hist, fstab |-> fstab, rdir |-> rdir]>>) /\ FALSE
+            ELSE TRUE
 TUser ==
   /\ UNCHANGED scn
   /\ \/ Is("rules") /\ SetRules(E.rules)
@@ -71,8 +76,8 @@ TUser ==
      \/ Is("delcache") /\ DelCache(E.n)
      \/ Is("delruler") /\ DelRuler(E.what)
      \/ Is("env") /\ ChangeEnv(E.v)
-     \/ Is("build") /\ StartBuildWith(E.g, fstab, IF Has(E, "serial") THEN [serial |-> E.serial] ELSE EmptyF)
-     \/ Is("clean") /\ StartClean(E.g)
+     \/ Is("build") /\ PreMatch /\ StartBuildWith(E.g, fstab, IF Has(E, "serial") THEN [serial |-> E.serial] ELSE EmptyF)
+     \/ Is("clean") /\ PreMatch /\ StartClean(E.g)
 
 TStep ==
   /\ Is("step") /\ UNCHANGED scn /\ IsName(E.t)
@@ -95,7 +100,8 @@ TRet ==
   /\ Is("ret") /\ UNCHANGED scn
   /\ (Finish \/ CleanFinish)
   /\ Match(ev', E)
-  /\ (SM(ws', cache', hist', fstab', rdir', E.state) \/ (PrintT(<<"STATE-MISMATCH", scn, l, [ws |-> ws', cache |-> cache', hist |-> hist', fstab |-> fstab', rdir |-> rdir']>>) /\ FALSE))
+  /\ IF SM(ws', cache', hist', fstab', rdir', E.state) THEN TRUE
+     ELSE PrintT(<<"STATE-MISMATCH", scn, l, [ws |-> ws', cache |-> cache', hist |-> hist', fstab |-> fstab', rdir |-> rdir']>>) /\ FALSE
 
 TInit ==
   /\ InitCore /\ ord = <<>> /\ rules = <<>> /\ ws = EmptyF
